@@ -61,6 +61,10 @@ def jobs(tier):
                     dict(version=version, shape="flat2", P=16384, K=1, layout="flat", decoy="none", tname="...And Justice [1988] (v2)")))
     out.append(("v1.ungrouped3.flat.decoy-none", "job", dict(version=1, shape="ungrouped3", P=16384, K=2, layout="flat", decoy="none")))
     out.append(("v1.ungrouped3.mirror.decoy-none", "job", dict(version=1, shape="ungrouped3", P=16384, K=1, layout="mirror", decoy="none")))
+    for shp in cr.scheme_shapes(["flat2", "nested3"], tier):
+        for version in (1, 2, 3):
+            out.append(("v%d.%s.mirror.decoy-none" % (version, shp), "job",
+                        dict(version=version, shape=shp, P=16384, K=1, layout="mirror", decoy="none")))
     out.append(("v1.flat2.flat.partial-decoy", "job", dict(version=1, shape="flat2", P=16384, K=2, layout="flat", decoy="partial")))
     out.append(("v1.flat2.flat.cli", "job", dict(version=1, shape="flat2", P=16384, K=2, layout="flat", decoy="none", via="cli")))
     out.append(("v1.batch2", "job_batch", dict()))
